@@ -8,6 +8,7 @@ receiver decodes what arrived with the real decoder under the step clock.
 
 import copy
 import random
+import time
 
 from vsim import steps, world, specgen, shrink
 from vsim.rng import mix
@@ -17,6 +18,7 @@ from vsim.ser import ser, deser, canon
 CODECS = ['ber', 'der', 'per', 'uper', 'oer']
 # Cap on simulated time per run: many short runs beat a few long ones.
 RUN_TICKS = 6000000
+RUN_WALL_S = 60
 
 
 def cut_points(length, rng):
@@ -113,6 +115,7 @@ class C16(Engine):
 
         spec = outcome[1]
         rng = random.Random(mix(case.get('seed', 0), 'cuts'))
+        started = time.time()
 
         for index, (type_name, jvalue) in enumerate(case['messages']):
             value = deser(jvalue)
@@ -167,7 +170,10 @@ class C16(Engine):
             done = 0
 
             for k in cuts:
-                if result.ticks > RUN_TICKS:
+                # Simulated-time cap of the run, plus a wall-clock cap (C
+                # level big-integer work is invisible to the step clock).
+                if result.ticks > RUN_TICKS \
+                        or time.time() - started > RUN_WALL_S:
                     break
 
                 done += 1
